@@ -75,7 +75,7 @@ impl StarkProof {
             self.proof_parameters.n_verifier_friendly_commitment_layers;
 
         let consts =
-            self.public_input.layout.get_dynamics_or_consts(&self.public_input.dynamic_params);
+            self.public_input.layout.get_dynamics_or_consts(&self.public_input.dynamic_params)?;
 
         let log_eval_domain_size = self.log_eval_damain_size(&self.public_input.dynamic_params)?;
         let traces = TracesConfig {
@@ -156,7 +156,7 @@ impl StarkProof {
         &self,
         dynamic_params: &Option<BTreeMap<String, u32>>,
     ) -> anyhow::Result<u32> {
-        let consts = self.public_input.layout.get_dynamics_or_consts(dynamic_params);
+        let consts = self.public_input.layout.get_dynamics_or_consts(dynamic_params)?;
         let trace_length = Self::COMPONENT_HEIGHT
             .checked_mul(consts.cpu_component_step)
             .and_then(|height| height.checked_mul(self.public_input.n_steps))
